@@ -1,7 +1,7 @@
 (* C02 — retained messages returned for a subscription filter are exactly those whose topic the filter matches.
    Statements only. *)
 From MV Require Import Base.Val Topics.Levels Topics.Match Topics.Alist Topics.IndexSpec Topics.Trie
-  Topics.TrieRefine Topics.TrieMsgs Findings.FixedC02.
+  Topics.TrieRefine Topics.TrieMsgs Topics.RetSub Topics.RetSubProofs Findings.FixedC02.
 From Coq Require Import Permutation.
 Open Scope N_scope.
 
@@ -36,6 +36,30 @@ Proof.
   apply filter_In in HI. destruct HI as [HI _]. apply (in_map fst) in HI. exact HI.
 Qed.
 
+(* What the new subscriber is actually sent (server.go publishRetainedToClient over Messages(filter), with the
+   failure paths of publishToClient: read access denied for a topic, QoS 1/2 with no free in-flight slot / packet
+   id): for EVERY order in which the index may return the matching messages, the subscriber gets exactly the
+   matching retained messages it may read and can take — each at most once, at the QoS min(message, subscription,
+   server maximum), every readable QoS 0 one, and as many QoS 1/2 ones as the window has room for; an
+   undeliverable message never suppresses another one. *)
+Theorem C02_delivered_every_order : forall ops f qt denied subq maxq free scan,
+  wf_ops ops -> msg_filter_ok f = true ->
+  Permutation scan (map (annot qt) (messages (run ops) f)) ->
+  retsub_okb denied subq maxq free (map (annot qt) (spec_retained (abs ops) f))
+             (deliver denied subq maxq free scan) = true.
+Proof. exact deliver_on_index. Qed.
+
+(* non-vacuity of the delivery statement: one topic denied, window of one slot, three QoS 1 and one QoS 0 message;
+   a loop that stops at the first failure (seeded change C02b) is rejected by the same specification *)
+Example C02_delivery_nonvacuous :
+  let cands := [((tag "a", tag "m1"), 1); ((tag "b", tag "m2"), 1); ((tag "c", tag "m3"), 0); ((tag "d", tag "m4"), 1)] in
+  deliver [tag "a"] 1 2 1 cands = [((tag "b", tag "m2"), 1); ((tag "c", tag "m3"), 0)] /\
+  retsub_okb [tag "a"] 1 2 1 cands [((tag "b", tag "m2"), 1); ((tag "c", tag "m3"), 0)] = true /\
+  retsub_okb [tag "a"] 1 2 1 cands [] = false /\
+  retsub_okb [tag "a"] 1 2 1 cands [((tag "b", tag "m2"), 1)] = false /\
+  retsub_okb [tag "a"] 1 2 1 cands [((tag "b", tag "m2"), 1); ((tag "c", tag "m3"), 0); ((tag "d", tag "m4"), 1)] = false.
+Proof. vm_compute. repeat split. Qed.
+
 (* non-vacuity: parent level of a trailing '#', a $-topic, a cleared and an overwritten message *)
 Example C02_nonvacuous :
   let ops := [ORetain (tag "x") (tag "m1"); ORetain (tag "x/y") (tag "m2"); ORetain (tag "$foo/y") (tag "m3");
@@ -57,3 +81,4 @@ Proof. vm_compute. repeat split. Qed.
 Print Assumptions C02_refines.
 Print Assumptions C02_exactly.
 Print Assumptions C02_once.
+Print Assumptions C02_delivered_every_order.
